@@ -7,6 +7,7 @@ several flag combinations; a returned configuration that the caller mutates must
 """
 import copy
 import json
+import os
 import random
 
 PROPERTY = 'C08'
@@ -148,9 +149,37 @@ def rename(obj, ren):
     return obj
 
 
+def gen_graph_history(rr):
+    """updates through the configuration interface of a live experiment (ComponentSpecification.setOption ->
+    WorkflowGraph/FlowIRExperimentConfiguration.setOptionForNode), with the one operation of that interface that adds
+    components while the experiment runs: a DoWhile document instantiating its next iteration"""
+    from checks import e2
+    prog = e2.gen_loop_program(rr)
+    prog['k'] = rr.choice([1, 2])
+    prog['reloads'] = []
+    prog['uservars'] = False
+    prog['want_repl_input'] = False
+    ops = []
+    for _ in range(rr.choice([2, 4, 6])):
+        r = rr.random()
+        if r < 0.45:
+            ops.append({'op': 'set', 'target': rr.choice(['GenerateInput', 'outside']),
+                        'key': rr.choice(['#workflowAttributes.maxRestarts', '#resourceManager.config.walltime', 'newvar']),
+                        'value': rr.choice([5, 7, 11])})
+        elif r < 0.65:
+            ops.append({'op': 'iterate'})
+        else:
+            ops.append({'op': 'query'})
+    if not any(o['op'] == 'iterate' for o in ops):
+        ops.insert(rr.randrange(1, len(ops) + 1), {'op': 'iterate'})
+    return {'kind': 'graph', 'prog': prog, 'ops': ops}
+
+
 def gen_case(seed, tier, index=0):
     rr = random.Random(seed)
-    return {'histories': [gen_history(rr) for _ in range(12)]}
+    hs = [gen_history(rr) for _ in range(12)]
+    hs.append(gen_graph_history(rr))
+    return {'histories': hs}
 
 
 def shrink_candidates(case):
@@ -160,6 +189,13 @@ def shrink_candidates(case):
             yield {'histories': [hs[i]]}
         return
     h = hs[0]
+    if h.get('kind') == 'graph':
+        for i in range(len(h['ops'])):
+            c = copy.deepcopy(h)
+            del c['ops'][i]
+            if any(o['op'] == 'iterate' for o in c['ops']) or not any(o['op'] == 'iterate' for o in h['ops']):
+                yield {'histories': [c]}
+        return
     ops = h['ops']
     n = len(ops)
     # drop chunks, then single operations
@@ -338,6 +374,80 @@ def run_history(h, cnt):
     return viol, nontrivial
 
 
+def run_graph_history(h, cnt):
+    import hashlib
+    import shutil
+    from checks import e2
+    from sim import runtime as R
+    import experiment.model.frontends.flowir as F
+    import experiment.model.data as D
+    key = hashlib.sha256(json.dumps(h, sort_keys=True).encode()).hexdigest()[:12]
+    root = '/dev/shm/verif-c08g-%s' % key
+    shutil.rmtree(root, ignore_errors=True)
+    os.makedirs(root)
+    viol = []
+    prog = copy.deepcopy(h['prog'])
+    try:
+        exp = e2.new_instance(prog, root)
+        wg = exp.experimentGraph
+        e2.prepare_iteration_dirs(exp, [n for n in exp.graph.nodes], e2.iteration_of)
+        targets = {'GenerateInput': 'stage0.GenerateInput',
+                   'outside': 'stage%d.%s' % (prog['outside'][0]['stage'], prog['outside'][0]['name'])}
+        expected = {}  # (node, key) -> value last set
+        it = 0
+        last_mut = None
+
+        def read(node, key):
+            conf = wg.graph.nodes[node]['componentSpecification'].configuration
+            if key.startswith('#'):
+                cur = conf
+                for part in key[1:].split('.'):
+                    cur = cur.get(part) if isinstance(cur, dict) else None
+                return cur
+            return (conf.get('variables') or {}).get(key)
+
+        def check(step):
+            for (node, key), val in expected.items():
+                got = read(node, key)
+                cnt['probe.graph_level_comparisons'] = cnt.get('probe.graph_level_comparisons', 0) + 1
+                def same(a, b):
+                    try:
+                        return float(a) == float(b)  # options are converted to their declared type (11 -> 11.0)
+                    except (TypeError, ValueError):
+                        return str(a) == str(b)
+                if not same(got, val):
+                    viol.append({'property': 'C08', 'sig': 'update-lost-after:%s' % last_mut,
+                                 'detail': {'step': step, 'node': node, 'key': key, 'value_last_set': val, 'query_returns': got,
+                                            'interface': 'ComponentSpecification.setOption / configuration'}})
+                    return False
+            return True
+
+        for step, op in enumerate(h['ops']):
+            if op['op'] == 'set':
+                node = targets[op['target']]
+                wg.graph.nodes[node]['componentSpecification'].setOption(op['key'], op['value'])
+                expected[(node, op['key'])] = op['value']
+                last_mut = 'setOption'
+                cnt['op.graph.setOption'] = cnt.get('op.graph.setOption', 0) + 1
+            elif op['op'] == 'iterate':
+                docs = wg._documents[F.FlowIR.LabelDoWhile]
+                name = sorted(docs)[0]
+                new = wg.instantiate_dowhile_next_iteration(docs[name]['document'], it + 1, False)
+                it += 1
+                for ref in new:
+                    spec = exp.graph.nodes[ref]['componentSpecification']
+                    cid = spec.identification
+                    directory = exp.instanceDirectory.createJobWorkingDirectory(cid.stageIndex, cid.componentName)
+                    exp.getStage(cid.stageIndex).add_job(D.Job.jobFromConfiguration(cid, wg, directory))
+                last_mut = 'instantiate_dowhile_next_iteration'
+                cnt['op.graph.iterate'] = cnt.get('op.graph.iterate', 0) + 1
+            if not check(step):
+                break
+    finally:
+        R.cleanup_root(root)
+    return viol, True
+
+
 def run_case(case, schedule, opts):
     import hashlib
     result = {'violations': [], 'counters': {}}
@@ -345,7 +455,7 @@ def run_case(case, schedule, opts):
     units = 0
     hh = hashlib.sha256()
     for h in case['histories']:
-        v, nontrivial = run_history(h, cnt)
+        v, nontrivial = run_graph_history(h, cnt) if h.get('kind') == 'graph' else run_history(h, cnt)
         hh.update(json.dumps(h, sort_keys=True).encode())
         if nontrivial:
             units += 1
@@ -355,6 +465,7 @@ def run_case(case, schedule, opts):
     cnt['probe.histories'] = len(case['histories'])
     result['digest'] = result['abstract'] = hh.hexdigest()[:16]
     result['distinct_units'] = units
-    result['sample'] = {'initial_document': case['histories'][0]['doc'], 'platform': case['histories'][0]['platform'],
-                        'operations': case['histories'][0]['ops'][:25]}
+    h0 = case['histories'][0]
+    result['sample'] = ({'graph_level_history': h0} if h0.get('kind') == 'graph' else
+                        {'initial_document': h0['doc'], 'platform': h0['platform'], 'operations': h0['ops'][:25]})
     return result
